@@ -139,6 +139,14 @@ class History(object):
         self.log.append(('insert_frag_fend_entry',))
         return True
 
+    def op_grow(self):
+        """a query, not an edit: grow() returns a list and must leave the object as it was"""
+        with contextlib.redirect_stdout(io.StringIO()):
+            self.shx.grow(with_qpeaks=self.rng.random() < 0.5)
+        self.mops.append(('skip',))
+        self.log.append(('grow',))
+        return True
+
     def op_insert_anis(self):
         shx = self.shx
         i = find_entry(self.ents, shx.unit)
@@ -282,7 +290,13 @@ class History(object):
         i = find_entry(self.ents, shx.wght)
         if i is None:
             return False
-        if shx.wght_suggested is not None and self.rng.random() < 0.5:
+        if self.rng.random() < 0.3:
+            # set() with fewer parameters than the instruction had: the omitted ones take their defaults
+            new = [round(self.rng.uniform(0.01, 0.2), 4), round(self.rng.uniform(0.1, 3), 4)][:self.rng.randint(1, 2)]
+            shx.wght.set('WGHT ' + ' '.join(repr(v) for v in new))
+            vals = new + [0.1, 0.0, 0.0, 0.0, 0.0, 0.33333][len(new):]
+            self.log.append(('wght.set', new))
+        elif shx.wght_suggested is not None and self.rng.random() < 0.5:
             shx.update_weight()
             s = shx.wght_suggested
             vals = [s.a, s.b, s.c, s.d, s.e, s.f]
@@ -329,7 +343,7 @@ class History(object):
             self.log.append(('restore_acta',))
         return True
 
-    OPS = ['add_line', 'insert_anis', 'delete_atom', 'rename', 'element', 'isotropic', 'plan', 'cycles', 'wght', 'acta', 'frag']
+    OPS = ['add_line', 'insert_anis', 'delete_atom', 'rename', 'element', 'isotropic', 'plan', 'cycles', 'wght', 'acta', 'frag', 'grow']
 
     def step(self, name=None):
         name = name or self.rng.choice(self.OPS)
